@@ -515,6 +515,110 @@ def h_web_menu(i0: int, r1: int, k1: int) -> bool:
     """
     return run(body_web_menu, i0, r1, k1)
 
+
+# ------------------------------------------------------------------ the model against the REAL stack on disk
+def _model_script(kind, S0, A0, script):
+    """Run a script of requests on the model world; -> ([status class...], {"cal": .., "ab": ..}) like xv/real_e2e.py."""
+    import xandikos.web as Wb
+    mweb.fresh_world(dict(S0), dict(A0), kind=kind)
+    app = mweb.make_app()
+    statuses = []
+    for rq in script:
+        headers = []
+        cond = rq.get("cond", 0)
+        if cond:
+            g = mweb.call(app, "GET", rq["p"])
+            etag = g.header("ETag") if g.status_class == "2xx" else None
+            if cond == 1:
+                headers.append(("If-Match", etag if etag else '"zz"'))
+            elif cond == 2:
+                headers.append(("If-Match", '"zz"'))
+            elif cond == 3:
+                headers.append(("If-None-Match", "*"))
+            elif cond == 4:
+                headers.append(("If-Match", "*"))
+        r = mweb.call(app, rq["m"], rq["p"], headers=headers, body=rq.get("b", "").encode("latin-1"),
+                      content_type=rq.get("ct") or "application/octet-stream")
+        statuses.append(r.status_class)
+    Wb.open_store_from_path.cache_clear()
+    app = mweb.make_app()
+    out = {}
+    for key, col in (("cal", mweb.CAL), ("ab", mweb.AB)):
+        st = _coll_state(app, col, False, "/")
+        out[key] = None if st is None else {n: (b.decode("latin-1") if isinstance(b, bytes) else None) for n, b in st.items()}
+    return statuses, out
+
+
+def _canon(state):
+    """Member names invented by the server (POST add-member: a uuid) are compared as a multiset of contents."""
+    if state is None:
+        return None
+    fixed = {n: v for n, v in state.items() if len(n) < 20}
+    invented = sorted(v for n, v in state.items() if len(n) >= 20)
+    return (fixed, invented)
+
+
+def body_real_e2e(i0, r1, k1):
+    """Differential check of the MODEL (file system, dulwich surface, file classes, response serialisation stubs)
+    against the REAL stack: the same two-request scripts run through the real XandikosApp over real on-disk git
+    repositories (xv/real_e2e.py, real icalendar / vobject parsing, real WSGI entry point) and through the harness
+    world; status classes and the final state of both collections (as a restarted server lists them) must agree.
+    A disagreement means the model or the real code is wrong - either way the other C01 harnesses cannot be
+    trusted on that input, so it is reported."""
+    from xv.core import picks, untraced
+    c0, req1, tok1 = picks((i0, r1, k1), (TOK, REQS, BODIES))
+    with untraced():
+        import json
+        import os
+        import subprocess
+        import xv
+        S0 = {n: SP.norm(n, b) for n, b in (("a.ics", c0), ("b.ics", b"xb")) if len(b) > 0}
+        if not SP.invariant(S0):
+            return (True, "pre-invalid")
+        A0 = {"c.vcf": b"v1"}
+
+        def mk(req, tok, cond):
+            method, t = req
+            if method == "PUTV":
+                return {"m": "PUT", "p": mweb.AB + "/n.vcf", "b": tok.decode("latin-1"), "ct": "text/vcard", "cond": cond}
+            if method == "PUTT":
+                return {"m": "PUT", "p": mweb.CAL + "/n.txt", "b": tok.decode("latin-1"), "ct": "application/octet-stream", "cond": cond}
+            if method == "POST":
+                return {"m": "POST", "p": mweb.CAL + "/", "b": tok.decode("latin-1"), "ct": "text/calendar", "cond": 0}
+            return {"m": method, "p": mweb.CAL + "/" + WNAMES[t], "b": tok.decode("latin-1") if method == "PUT" else "",
+                    "ct": "text/calendar" if method == "PUT" else None, "cond": cond}
+
+        scripts = []
+        for req2 in REQS:
+            for tok2 in (BODIES if req2[0] != "DELETE" else BODIES[:1]):
+                for cond2 in ((0, 1, 3) if req2[0] in ("PUT", "DELETE") else (0,)):
+                    scripts.append([mk(req1, tok1, 0), mk(req2, tok2, cond2)])
+        job = {"cal": {n: b.decode("latin-1") for n, b in S0.items()}, "ab": {n: b.decode("latin-1") for n, b in A0.items()},
+               "scripts": scripts}
+        p = subprocess.run(["/venv/bin/python", os.path.join(os.path.dirname(__file__), "..", "real_e2e.py")],
+                           input=json.dumps(job), capture_output=True, text=True, cwd=xv.REPO,
+                           env={"PATH": os.environ.get("PATH", ""), "PYTHONPATH": xv.REPO})
+        if p.returncode != 0:
+            raise RuntimeError("real stack driver failed: " + p.stderr[-600:])
+        real = json.loads(p.stdout)
+        for script, (rst, rstate) in zip(scripts, real):
+            mst, mstate = _model_script("tree", S0, A0, script)
+            # the real bodies are parsed: normalisation there is the identity on the token, here 'N' -> 'n'
+            rs = {k: (None if v is None else {n: (SP.norm(n, t.encode("latin-1")).decode("latin-1") if t is not None else None)
+                                              for n, t in v.items()}) for k, v in rstate.items()}
+            if mst != rst or _canon(mstate["cal"]) != _canon(rs["cal"]) or _canon(mstate["ab"]) != _canon(rs["ab"]):
+                ctx.LAST_EXC = "model %r %r / real %r %r for %r" % (mst, mstate, rst, rs, script)
+                return (False, "model-differs")
+        return (True, "first:" + req1[0])
+
+
+def h_real_e2e(i0: int, r1: int, k1: int) -> bool:
+    """
+    pre: 0 <= i0 < len(TOK) and 0 <= r1 < len(REQS) and 0 <= k1 < len(BODIES)
+    post: _
+    """
+    return run(body_real_e2e, i0, r1, k1)
+
 _B = {"quick": {"n": 2, "blen": 2}, "thorough": {"n": 3, "blen": 3}}
 _WEB_PARTS_Q = [("PUT", False, "/"), ("PUT", True, "/dav/"), ("DELETE", False, "/"), ("DELETE", True, "/"),
                 ("POST", False, "/"), ("POST", True, "/dav/"), ("GET", True, "/")]
@@ -595,6 +699,17 @@ HARNESSES = [
                      "xandikos.store.git.BareGitStore._import_one", "xandikos.store.git.TreeGitStore._import_one",
                      "xandikos.store.git.GitStore._check_duplicate", "xandikos.store.git.GitStore._scan_uids",
                      "xandikos.web.open_store_from_path"]),
+    Harness("real_e2e", h_real_e2e, body_real_e2e, classes=[("first:PUT", None), ("first:DELETE", None)],
+            bounds=_B, budget={"quick": 150, "thorough": 1500}, per_path_timeout={"quick": 120, "thorough": 120},
+            twin_budget={"quick": 60, "thorough": 120},
+            describe="the model against the REAL stack: two-request scripts (first request chosen by the solver, every "
+                     "second request looped inside) through the real XandikosApp over real on-disk git repositories "
+                     "(real parsers, real WSGI entry point; two sandbox shims for dulwich 1.2 / icalendar 7, see "
+                     "xv/real_e2e.py) and through the harness world: status classes and final states agree",
+            encodes=["xandikos.web.XandikosApp.handle_wsgi_request", "xandikos.webdav.PutMethod.handle",
+                     "xandikos.webdav.DeleteMethod.handle", "xandikos.webdav.PostMethod.handle", "xandikos.webdav._send_dav_responses",
+                     "xandikos.store.git.TreeGitStore._import_one", "xandikos.store.git.TreeGitStore.delete_one",
+                     "xandikos.icalendar.ICalendarFile.validate", "xandikos.vcard.VCardFile.validate"]),
     Harness("web_step", h_web_step, body_web_step,
             classes=[("PUT:2xx", ("PUT", False, "/")), ("PUT:412", ("PUT", True, "/dav/")), ("DELETE:2xx", ("DELETE", False, "/")),
                      ("DELETE:404", ("DELETE", True, "/")), ("DELETE:412", ("DELETE", False, "/")),
